@@ -22,21 +22,22 @@ def handleTy (t : PStrTy) (op : String) (args : List String) : String :=
   | "store", [_, h, x] =>
     match h.toNat?, Hex.dec x with
     | some hints, some s =>
-      match HexStr.store t hints s with
+      match HexStr.storeCur t hints s with
       | .ok v => "ok " ++ Hex.enc (HexStr.canon v) ++ " " ++ Hex.enc (HexStr.lyb v)
-      | .error e => "err " ++ e.name
+      | .error e => "err " ++ e
     | _, _ => "err BadArg"
   | "validate", [_, x] =>
     match Hex.dec x with
     | some s =>
-      match HexStr.store t Generated.LYD_HINT_DATA s with
+      match HexStr.storeCur t Generated.LYD_HINT_DATA s with
       | .ok v => "ok " ++ Hex.enc (HexStr.canon v)
-      | .error e => "err " ++ e.name
+      | .error e => "err " ++ e
     | none => "err BadArg"
   | "cmp", [_, x1, x2] =>
     match Hex.dec x1, Hex.dec x2 with
     | some s1, some s2 =>
-      match HexStr.store t Generated.LYD_HINT_DATA s1, HexStr.store t Generated.LYD_HINT_DATA s2 with
+      -- `lyd_new_term` takes C strings: the harness hands over the part before a NUL
+      match HexStr.storeCur t Generated.LYD_HINT_DATA (cstr s1), HexStr.storeCur t Generated.LYD_HINT_DATA (cstr s2) with
       | .error _, _ => "err Reject1"
       | .ok _, .error _ => "err Reject2"
       | .ok a, .ok b =>
@@ -47,19 +48,19 @@ def handleTy (t : PStrTy) (op : String) (args : List String) : String :=
   | "lybrt", [_, x] =>
     match Hex.dec x with
     | some s =>
-      match HexStr.store t Generated.LYD_HINT_DATA s with
-      | .error e => "err " ++ e.name
+      match HexStr.storeCur t Generated.LYD_HINT_DATA s with
+      | .error e => "err " ++ e
       | .ok v =>
-        match HexStr.unlyb t (HexStr.lyb v) with
-        | .error e => "err Unlyb" ++ e.name
+        match HexStr.storeCur t Generated.LYD_HINT_DATA (HexStr.lyb v) with
+        | .error e => "err Unlyb" ++ e
         | .ok w => "ok " ++ Hex.enc (HexStr.lyb v) ++ " " ++ Hex.enc (HexStr.canon w) ++ " " ++ (if HexStr.cmpEq v w then "1" else "0") ++ " 1 1"
     | none => "err BadArg"
   | "unlyb", [_, x] =>
     match Hex.dec x with
     | some b =>
-      match HexStr.unlyb t b with
+      match HexStr.storeCur t Generated.LYD_HINT_DATA b with
       | .ok v => "ok " ++ Hex.enc (HexStr.canon v)
-      | .error e => "err " ++ e.name
+      | .error e => "err " ++ e
     | none => "err BadArg"
   | _, _ => "err BadOp"
 
